@@ -86,6 +86,8 @@ type scenario struct {
 	// NoDriftFrom: no drift is injected from this round on (e.g. because the user pauses the
 	// ObjectSet then, and a paused ObjectSet legitimately leaves drift alone); 0 = no limit
 	NoDriftFrom int
+	// ExtraDrifts: further drift kinds injected in this scenario only
+	ExtraDrifts []string
 }
 
 func ready(w *world.World) {
@@ -151,6 +153,27 @@ func applyDrift(w *world.World, sc scenario, d string) bool {
 				m["labels"] = l
 			}
 			l["third-party"] = "yes"
+		})
+	case "append-list":
+		// a third party appends an entry to a list the manifest spells out
+		sp, _ := w.S.Objs[k].Content["spec"].(map[string]any)
+		if _, ok := sp["list"].([]any); !ok {
+			return false
+		}
+		_ = w.Edit(k, func(c map[string]any) {
+			sp := c["spec"].(map[string]any)
+			sp["list"] = append(sp["list"].([]any), "appended-by-third-party")
+		})
+	case "fill-empty":
+		// a third party sets fields the manifest declares empty
+		sp, _ := w.S.Objs[k].Content["spec"].(map[string]any)
+		if _, ok := sp["empty"]; !ok {
+			return false
+		}
+		_ = w.Edit(k, func(c map[string]any) {
+			sp := c["spec"].(map[string]any)
+			sp["empty"] = "filled-by-third-party"
+			sp["emptyList"] = []any{"x"}
 		})
 	case "lower-revision":
 		_ = w.Edit(k, func(c map[string]any) {
@@ -420,6 +443,20 @@ func scenarios() []scenario {
 			w.MustCreate(world.NewObjectSet("r2", none(osw.PhaseSpecs(osw.OnePhase("a", "b", "c"), 2)), nil, "r1"))
 			return w
 		}, DriftTargets: testObjects, LooseHistory: true},
+		{Name: "S13 single ObjectSet whose objects spell out a list and fields with empty values", Init: func() *world.World {
+			w := osw.NewWorld()
+			ps := osw.PhaseSpecs(osw.B1(2, 0), 1)
+			for pi := range ps {
+				for oi := range ps[pi].Objects {
+					sp := ps[pi].Objects[oi].Object.Object["spec"].(map[string]any)
+					sp["list"] = []any{"first", "second"}
+					sp["empty"] = ""
+					sp["emptyList"] = []any{}
+				}
+			}
+			w.MustCreate(world.NewObjectSet("r1", ps, world.StdProbes()))
+			return w
+		}, DriftTargets: testObjects, ExtraDrifts: []string{"append-list", "fill-empty"}},
 		{Name: "S5 ObjectTemplate with one source", Init: func() *world.World {
 			w := osw.NewWorld()
 			src := world.Obj("Gadget", world.NS, "s1", nil)
@@ -503,7 +540,7 @@ func run(o checks.Opts) *report.Report {
 				continue
 			}
 			for t := 0; t < nt+1; t++ {
-				for _, dk := range driftKinds {
+				for _, dk := range append(append([]string{}, driftKinds...), sc.ExtraDrifts...) {
 					injs = append(injs, &injection{Round: r, Drift: fmt.Sprintf("%s#%d", dk, t)})
 				}
 			}
